@@ -4,8 +4,8 @@
 //@ assume: decided here: the prune-list representation invariant (caches = prefix sums of per-root contributions in position order, one entry per root) and what the shift lookups return; file rewriting during compaction, reopen and the chain-level statement are not decided (DESIGN 6 C08)
 //@ assume: PruneList::flush: the disk content of the prune-list file is a ghost out-parameter (T6: `Tracked(disk)` added to flush and to save_via_temp_file, whose contract is assumed here and its step order decided in C09/save_via_temp_file); the writer closure is lifted and verified (T7); `serialize::<Portable>()` => serialize_portable(), a function of the elements; run_optimize keeps them; `if let Some(ref path) = self.path` => `if let Some(path) = &self.path`
 //@ assume: 64-bit target
-//@ assumed_items: 17
-//@ fns: PruneList::build_shift_cache, PruneList::build_leaf_shift_cache, PruneList::init_caches, PruneList::get_shift, PruneList::get_leaf_shift, PruneList::flush (+ its writer closure), PruneList::get_total_shift, PruneList::get_total_leaf_shift, PruneList::calculate_next_shift, PruneList::calculate_next_leaf_shift, PruneList::append_single, PruneList::cleanup_subtree, PruneList::is_pruned_root, PruneList::is_pruned
+//@ assumed_items: 19
+//@ fns: PruneList::build_shift_cache, PruneList::build_leaf_shift_cache, PruneList::init_caches, PruneList::get_shift, PruneList::get_leaf_shift, PruneList::flush (+ its writer closure), PruneList::discard, PruneList::get_total_shift, PruneList::get_total_leaf_shift, PruneList::calculate_next_shift, PruneList::calculate_next_leaf_shift, PruneList::append_single, PruneList::cleanup_subtree, PruneList::is_pruned_root, PruneList::is_pruned
 //@ import: use vstd::arithmetic::power2::*;
 //@ import: use vstd::bits::*;
 global size_of usize == 8;
@@ -51,6 +51,11 @@ impl Bitmap {
     pub open spec fn wf(&self) -> bool {
         increasing(self.seq()) && forall|i: int| 0 <= i < self.seq().len() ==> 1 <= #[trigger] self.seq()[i] <= 0xffff_ffff
     }
+    #[verifier::external_body]
+    pub fn clone(&self) -> (r: Bitmap) ensures r.seq() == self.seq() { unimplemented!() }
+    /// stands in for `a != b` on bitmaps (T6)
+    #[verifier::external_body]
+    pub fn differs_from(&self, other: &Bitmap) -> (r: bool) ensures r == (self.seq() != other.seq()) { unimplemented!() }
     /// re-encodes the containers; the elements are unchanged
     #[verifier::external_body]
     pub fn run_optimize(&mut self) -> (r: bool)
@@ -313,17 +318,16 @@ impl PruneList {
 //@ extract store/src/prune_list.rs :: impl PruneList::build_shift_cache
 //@   rewrite `for pos1 in self.bitmap.iter() {` => `let bv = self.bitmap.to_vec(); for pos1x in it: bv.iter() { let pos1 = *pos1x;`
 //@   requires:
-//@+    old(self).well_formed(), old(self).bitmap.seq().len() < 0x1_0000_0000,
+//@+    old(self).prefix_ok(), old(self).bitmap.seq().len() < 0x1_0000_0000,
 //@+    shift_sum(old(self).bitmap.seq(), old(self).bitmap.seq().len() as int) <= u64::MAX,
 //@   ensures:
-//@+    // rebuilding the cache from the bitmap (done on every reopen) gives the SAME representation invariant the incremental path maintains
-//@+    final(self).well_formed(), final(self).bitmap == old(self).bitmap, final(self).leaf_shift_cache == old(self).leaf_shift_cache,
+//@+    // rebuilding the cache from the bitmap (done on every reopen, and by discard) gives the SAME representation invariant the incremental path maintains -- from ANY state whose caches are valid prefixes (in particular empty ones)
+//@+    final(self).prefix_ok(), final(self).shift_cache@.len() == final(self).bitmap.seq().len(), final(self).bitmap == old(self).bitmap, final(self).bitmap_bak == old(self).bitmap_bak, final(self).leaf_shift_cache == old(self).leaf_shift_cache,
 //@   at_start:
 //@+    proof { assert forall|h: u64| h <= 63 implies (1u64 << h) as nat == pow2(h as nat) && 1 <= #[trigger] (1u64 << h) <= 0x8000_0000_0000_0000u64 by { lemma_shl_bound(h); } }
 //@   loop 1:
 //@+    invariant
-//@+        self.bitmap == old(self).bitmap, self.leaf_shift_cache == old(self).leaf_shift_cache, self.prefix_ok(),
-//@+        self.leaf_shift_cache@.len() == self.bitmap.seq().len(),
+//@+        self.bitmap == old(self).bitmap, self.bitmap_bak == old(self).bitmap_bak, self.leaf_shift_cache == old(self).leaf_shift_cache, self.prefix_ok(),
 //@+        bv@.len() == self.bitmap.seq().len(), forall|i: int| 0 <= i < bv@.len() ==> #[trigger] bv@[i] as int == self.bitmap.seq()[i],
 //@+        self.shift_cache@.len() == it.index@,
 //@+        self.bitmap.seq().len() < 0x1_0000_0000, shift_sum(self.bitmap.seq(), self.bitmap.seq().len() as int) <= u64::MAX,
@@ -342,15 +346,15 @@ impl PruneList {
 //@ extract store/src/prune_list.rs :: impl PruneList::build_leaf_shift_cache
 //@   rewrite `for pos1 in self.bitmap.iter() {` => `let bv = self.bitmap.to_vec(); for pos1x in it: bv.iter() { let pos1 = *pos1x;` x?
 //@   requires:
-//@+    old(self).well_formed(), old(self).bitmap.seq().len() < 0x1_0000_0000,
+//@+    old(self).prefix_ok(), old(self).shift_cache@.len() == old(self).bitmap.seq().len(), old(self).bitmap.seq().len() < 0x1_0000_0000,
 //@+    leaf_sum(old(self).bitmap.seq(), old(self).bitmap.seq().len() as int) <= u64::MAX,
 //@   ensures:
-//@+    final(self).well_formed(), final(self).bitmap == old(self).bitmap, final(self).shift_cache == old(self).shift_cache,
+//@+    final(self).well_formed(), final(self).bitmap == old(self).bitmap, final(self).bitmap_bak == old(self).bitmap_bak, final(self).shift_cache == old(self).shift_cache,
 //@   at_start:
 //@+    proof { assert forall|h: u64| h <= 63 implies (1u64 << h) as nat == pow2(h as nat) && 1 <= #[trigger] (1u64 << h) <= 0x8000_0000_0000_0000u64 by { lemma_shl_bound(h); } }
 //@   loop 1?:
 //@+    invariant
-//@+        self.bitmap == old(self).bitmap, self.shift_cache == old(self).shift_cache, self.prefix_ok(),
+//@+        self.bitmap == old(self).bitmap, self.bitmap_bak == old(self).bitmap_bak, self.shift_cache == old(self).shift_cache, self.prefix_ok(),
 //@+        self.shift_cache@.len() == self.bitmap.seq().len(),
 //@+        bv@.len() == self.bitmap.seq().len(), forall|i: int| 0 <= i < bv@.len() ==> #[trigger] bv@[i] as int == self.bitmap.seq()[i],
 //@+        self.leaf_shift_cache@.len() == it.index@,
@@ -369,10 +373,10 @@ impl PruneList {
 
 //@ extract store/src/prune_list.rs :: impl PruneList::init_caches
 //@   requires:
-//@+    old(self).well_formed(), old(self).bitmap.seq().len() < 0x1_0000_0000,
+//@+    old(self).prefix_ok(), old(self).bitmap.seq().len() < 0x1_0000_0000,
 //@+    shift_sum(old(self).bitmap.seq(), old(self).bitmap.seq().len() as int) <= u64::MAX, leaf_sum(old(self).bitmap.seq(), old(self).bitmap.seq().len() as int) <= u64::MAX,
 //@   ensures:
-//@+    final(self).well_formed(), final(self).bitmap == old(self).bitmap,
+//@+    final(self).well_formed(), final(self).bitmap == old(self).bitmap, final(self).bitmap_bak == old(self).bitmap_bak,
 //@ end
 
 //@ extract store/src/prune_list.rs :: impl PruneList::append_single
@@ -456,6 +460,19 @@ impl PruneList {
 //@+    r.is_ok() && old(self).path is Some ==> final(disk).content == sp_ser(old(self).bitmap.seq()),
 //@+    r.is_err() || old(self).path is None ==> final(disk).content == old(disk).content,
 //@+    final(self).bitmap.seq() == old(self).bitmap.seq(), final(self).shift_cache == old(self).shift_cache, final(self).leaf_shift_cache == old(self).leaf_shift_cache,
+//@+    // after a successful flush the in-memory backup (what discard() goes back to) is the flushed list
+//@+    r.is_ok() ==> final(self).bitmap_bak.seq() == old(self).bitmap.seq(), r.is_err() ==> final(self).bitmap_bak.seq() == old(self).bitmap_bak.seq(),
+//@ end
+//@ extract store/src/prune_list.rs :: impl PruneList::discard
+//@   rewrite `self.bitmap != self.bitmap_bak` => `self.bitmap.differs_from(&self.bitmap_bak)`
+//@   requires:
+//@+    old(self).bitmap_bak.wf(), old(self).bitmap_bak.seq().len() < 0x1_0000_0000,
+//@+    shift_sum(old(self).bitmap_bak.seq(), old(self).bitmap_bak.seq().len() as int) <= u64::MAX, leaf_sum(old(self).bitmap_bak.seq(), old(self).bitmap_bak.seq().len() as int) <= u64::MAX,
+//@+    // the caches are in step with the list whenever the list is the flushed one
+//@+    old(self).bitmap.seq() == old(self).bitmap_bak.seq() ==> old(self).well_formed(),
+//@   ensures:
+//@+    // the list is the last flushed one again and the caches are rebuilt for it
+//@+    final(self).bitmap.seq() == old(self).bitmap_bak.seq(), final(self).bitmap_bak.seq() == old(self).bitmap_bak.seq(), final(self).well_formed(),
 //@ end
 }
 //@ canary get_shift: r == 0
